@@ -665,7 +665,12 @@ func extractMinimalRegions(t *trie.Trie[bit256.Key, peer.ID], path bitstr.Key, s
 		return append(extractMinimalRegions(t.Branch(b), path+bitstr.Key(byte('0'+b)), size, order),
 			extractMinimalRegions(t.Branch(1-b), path+bitstr.Key(byte('1'-b)), size, order)...)
 	}
-	return []Region{{Prefix: path, Peers: t}}
+	// Re-root the region's peers at depth 0. `t` is a subtrie sitting at depth
+	// len(path), whereas the region's Keys trie is built from depth 0, and
+	// AllocateToKClosest walks both tries in lockstep from their roots.
+	peers := trie.New[bit256.Key, peer.ID]()
+	peers.AddMany(AllEntries(t, order)...)
+	return []Region{{Prefix: path, Peers: peers}}
 }
 
 // AssignKeysToRegions assigns the provided keys to the regions based on their
